@@ -361,6 +361,26 @@ pub fn replay(path: &str) -> i32 {
     }
 }
 
+/// Debug aid: one crash suite with full crash enumeration, all tags accepted.
+pub fn crash_suite_cmd(name: &str, depth: usize, seconds: f64) -> i32 {
+    let Some(mut s) = crashprops::all_crash_suites().into_iter().find(|s| s.name == name) else {
+        eprintln!("no crash suite {name}");
+        return 2;
+    };
+    s.depth = depth;
+    let mut report = Report::new("debug", "quick", "model_checking");
+    let plan = crashprops::CrashPlan { crash: true, layout_tag: "C10", nest: 0, reopen_cycles: 0, sector_tear: false, layout: false, probe_auto_ts: false };
+    crashprops::crash_check("debug", vec![s], &["C01", "C02", "C03", "C04", "C05", "C11", "C12", "C13", "C14"], plan, seconds, &mut report);
+    println!("{}", serde_json::to_string(&report.coverage["suites"]).unwrap_or_default());
+    for v in report.violations.iter().take(5) {
+        println!("VIOLATION {}", v.signature.chars().take(300).collect::<String>());
+    }
+    for m in &report.machinery {
+        println!("MACHINERY {m}");
+    }
+    if report.violations.is_empty() { 0 } else { 1 }
+}
+
 /// Debug aid: explore one program at a bound and print the statistics.
 pub fn sched_prog(name: &str, bound: u32, seconds: f64) -> i32 {
     let Some(p) = all_sched_programs().into_iter().find(|p| p.name == name) else {
